@@ -228,6 +228,17 @@ impl Ctx {
                 && (u == &other) == (want == std::cmp::Ordering::Equal)
                 && (u != &other) == (want != std::cmp::Ordering::Equal)
                 && ((h(u) == h(&other)) || want != std::cmp::Ordering::Equal)
+                // the other surfaces that hand out an equality / ordering verdict on Uints: is_zero and the
+                // constant-time comparisons of the subtle integration (verdict only; timing is not judged)
+                && u.is_zero() == n.iter().all(|&x| x == 0)
+                && {
+                    use subtle::{ConstantTimeEq, ConstantTimeGreater, ConstantTimeLess};
+                    bool::from(u.ct_eq(&other)) == (want == std::cmp::Ordering::Equal)
+                        && bool::from(u.ct_ne(&other)) == (want != std::cmp::Ordering::Equal)
+                        && bool::from(u.ct_lt(&other)) == (want == std::cmp::Ordering::Less)
+                        && bool::from(u.ct_gt(&other)) == (want == std::cmp::Ordering::Greater)
+                        && bool::from(other.ct_gt(u)) == (want == std::cmp::Ordering::Less)
+                }
                 && {
                     let mn = std::cmp::min(*u, other);
                     let mx = std::cmp::max(*u, other);
